@@ -74,6 +74,7 @@ Separate Extraction
   KnownC01.greedy_shadow
   Domain.C01_domain
   Domain.C01_env_ok
+  Domain.C01_tail_only
   Ambig.find
   Quote.make_string_constant
   ShellDQ.read
